@@ -39,6 +39,7 @@ pub struct Local {
     from_str: u64,
     from_reader: u64,
     many: u64,
+    with_limit: u64,
     many_values: u64,
     panics_after_err: u64,
     pub muts: BTreeMap<&'static str, u64>,
@@ -117,6 +118,28 @@ pub fn mutate_tokens(r: &mut Rng, doc: &str, other: &str, loc: &mut Local) -> St
                 let i = r.below(parts.len() + 1);
                 parts.insert(i, r.pick(ATOMS).to_string());
                 *loc.muts.entry("mutation.insert").or_insert(0) += 1;
+            }
+            10 if r.bool() => {
+                // another spelling of a value: booleans as 1 / 0, numbers with sign, zeros, exponent or blanks
+                let texts: Vec<usize> = (0..parts.len()).filter(|i| !parts[*i].starts_with('<') && !parts[*i].trim().is_empty()).collect();
+                if !texts.is_empty() {
+                    let i = texts[r.below(texts.len())];
+                    let t = parts[i].trim().to_string();
+                    parts[i] = match t.as_str() {
+                        "true" => r.pick(&["1", "True", "TRUE", " true "]).to_string(),
+                        "false" => r.pick(&["0", "False", " false"]).to_string(),
+                        _ if t.parse::<f64>().is_ok() => match r.below(6) {
+                            0 => format!("+{}", t),
+                            1 => format!("0{}", t),
+                            2 => format!(" {} ", t),
+                            3 => format!("{}e0", t),
+                            4 => format!("{}.0", t),
+                            _ => format!("{}\n", t),
+                        },
+                        _ => format!("{}\u{a0}", t),
+                    };
+                    *loc.muts.entry("mutation.other_spelling_of_a_value").or_insert(0) += 1;
+                }
             }
             2 => {
                 if parts.len() > 1 {
@@ -218,6 +241,9 @@ pub fn exec(ops: &TypeOps, doc: &str, reader: bool, piece: usize) -> Result<Resu
         if reader {
             let cuts = if piece == 0 { vec![] } else { cuts_for_piece(doc.len(), piece, 0) };
             (ops.de_reader)(ChunkedRead::new(doc.as_bytes(), cuts)).map(|_| ())
+        } else if piece >= 1000 {
+            // a Deserializer built by hand with an event buffer limit (piece - 1000)
+            (ops.de_str)(doc, Some(piece - 1000)).map(|_| ())
         } else {
             (ops.de_str)(doc, None).map(|_| ())
         }
@@ -258,7 +284,11 @@ fn run_doc(ctx: &mut Ctx, loc: &mut Local, all: &[TypeOps], doc: &str, own: usiz
     for ti in targets {
         let ops = &all[ti];
         let reader = r.chance(1, 3);
-        let piece = if reader { *r.pick(&[1usize, 1, 3, 0]) } else { 0 };
+        // from_str: now and then through a Deserializer with an event buffer limit of 1..=12 (encoded as 1000 + limit)
+        let piece = if reader { *r.pick(&[1usize, 1, 3, 0]) } else if r.chance(1, 4) { 1001 + r.below(12) } else { 0 };
+        if piece >= 1000 {
+            loc.with_limit += 1;
+        }
         ctx.journal(|| case_json(doc, ops.name, reader, piece));
         ctx.eval(H::new().str(doc).str(ops.name).u64(reader as u64).finish(), has_start);
         *loc.targets.entry(ops.name).or_insert(0) += 1;
@@ -444,6 +474,7 @@ fn run(ctx: &mut Ctx) {
     ctx.add("results.err", loc.err);
     ctx.add("entry.from_str", loc.from_str);
     ctx.add("entry.from_reader", loc.from_reader);
+    ctx.add("entry.from_str_with_event_buffer_limit", loc.with_limit);
     ctx.add("entry.one_deserializer_up_to_four_values", loc.many);
     ctx.add("entry.one_deserializer_values_obtained", loc.many_values);
     ctx.add("observation.panics_when_a_deserializer_is_used_again_after_it_returned_an_error_not_judged", loc.panics_after_err);
